@@ -171,27 +171,14 @@ func writeCell(sb *strings.Builder, t *tableSpec, c *cellSpec) {
 		st = append(st, "white-space:nowrap")
 	}
 	fmt.Fprintf(sb, "<td id=%s%s style=\"%s\">", c.ID, attrs, strings.Join(st, ";"))
-	f := t.Font
-	unit := func(s string) float64 {
-		if c.NoWrap {
-			return float64(lineLen(s)) * f
-		}
-		return float64(longestWord(s)) * f
-	}
-	c.MinC = 0
+	c.MinC = plainMinC(t.Font, c)
 	switch c.Kind {
 	case "words":
 		sb.WriteString(c.Text)
-		c.MinC = unit(c.Text)
 	case "lines":
 		sb.WriteString(c.Text + "<br>" + c.Text2)
-		c.MinC = unit(c.Text)
-		if m := unit(c.Text2); m > c.MinC {
-			c.MinC = m
-		}
 	case "div":
 		fmt.Fprintf(sb, "<div style=\"padding:0 %s 0 %s;border:%s solid black;margin:0\">%s</div>", px(c.DivPR), px(c.DivPL), px(c.DivBW), c.Text)
-		c.MinC = unit(c.Text) + c.DivPL + c.DivPR + 2*c.DivBW
 	case "table":
 		if c.Nested != nil {
 			writeTable(sb, c.Nested)
